@@ -103,6 +103,7 @@ def extract(ctx):
 
     # _format_path(t_path, root): is the root passed in and written as (the start of) the first part?
     root_aware = False
+    seg_repr = ''
     fp = find_def(tree, '_format_path')
     pr = find_def(tree, '__repr__', cls='Path')
     if fp is None or pr is None or ft is None:
@@ -121,6 +122,13 @@ def extract(ctx):
         repr_old = 'return _format_path(self.path_t.__ops__[1:])' in _src(pr)
         t_new = 'return _format_path(path, root)' in _src(ft)
         t_old = 'return _format_path(path)' in _src(ft)
+        # the function a plain segment is printed with (the model follows either)
+        if 'else repr(part)' in fp_src:
+            seg_repr = 'repr'
+        elif 'else bbrepr(part)' in fp_src:
+            seg_repr = 'bbrepr'
+        else:
+            P.add('_format_path: how a plain segment is printed not recognised')
         if new_shape and repr_new and t_new:
             root_aware = True
         elif old_shape and repr_old and t_old:
@@ -191,4 +199,5 @@ def extract(ctx):
         ('bbreprLimits', 'List (String × Nat)', table),
         ('bbreprFillvalue', 'String', fill),
         ('bbreprIsReprlib', 'Bool', is_reprlib),
+        ('fmtSegRepr', 'String', seg_repr),
     ])]
